@@ -354,8 +354,10 @@ nni_id_alloc32(nni_id_map *m, uint32_t *idp, void *val)
 	uint64_t id;
 	int      rv;
 	rv = nni_id_alloc(m, &id, val);
-	NNI_ASSERT(id < (1ULL << 32));
-	*idp = (uint32_t) id;
+	if (rv == 0) {
+		NNI_ASSERT(id < (1ULL << 32));
+		*idp = (uint32_t) id;
+	}
 	return (rv);
 }
 
